@@ -25,7 +25,12 @@
                                   `createFile_over_dir_fails`): error kind by the entry's type, the
                                   union view of every path unchanged (`ViewSame`);
                                   `remove_dir_with_lower_children_fails` (world unchanged, so no
-                                  marker); `append_continues_lower_bytes`.
+                                  marker); `append_continues_lower_bytes`;
+                                  `ensure_parent_file_refused` (+ `_wf`): the parent is a FILE of
+                                  the view, in whichever layer — create_dir / create_file /
+                                  append_file fail with `Other` and NO layer map changes (the
+                                  counterpart of the fix of `ensure_has_parent`, which used to
+                                  shadow such a file by an empty directory in the upper layer).
   F. non-vacuity                  concrete two-leaf world, by `decide` (the removal / re-creation
                                   checks on the same world, and the OPEN known finding
                                   `remove_file_on_lower_dir_orphans`, are in Props/C10.lean).
@@ -390,6 +395,61 @@ theorem append_continues_lower_bytes (ds : List Str) (n : Str) (hds : ∀ c ∈ 
       FMap.find?_insert_ne _ _ _ _ hne']
     exact hm1
 
+/-- **a file of the view cannot get children** (the formal counterpart of the fix of
+`OverlayFS::ensure_has_parent`). The parent `ds` of `p = ds/n` is a FILE of the union view — in
+whichever layer it sits: `create_dir(p)`, `create_file(p)` and `append_file(p)` through the
+overlay fail with `Other`, and the world is unchanged, so BOTH layer maps are what they were
+(before the fix the call failed too, but left the parent shadowed by an empty directory in the
+upper layer). For `append_file` nothing must sit at `p` in the upper map, which is the case in
+every well-formed upper map (`upper_child_absent_of_view_file`). -/
+theorem ensure_parent_file_refused (ds : List Str) (n : Str) (hdne : ds ≠ [])
+    (hds : ∀ c ∈ ds, GoodComp c) (hn : GoodComp n) (e : Entry)
+    (hv : view mu ml (renderC ds) = some e) (hf : e.ftype = .file) :
+    (Overlay.fs (layers2 u l idu idl)).createDir (renderC (ds ++ [n])) w
+        = (.err .other none, w) ∧
+    (Overlay.fs (layers2 u l idu idl)).createFile (renderC (ds ++ [n])) w
+        = (.err .other none, w) ∧
+    (mu.find? (renderC (ds ++ [n])) = none →
+      (Overlay.fs (layers2 u l idu idl)).appendFile (renderC (ds ++ [n])) w
+        = (.err .other none, w)) := by
+  have hcs := good_snoc hds hn
+  have hne : ds ++ [n] ≠ [] := by simp
+  have hE : pEnsure mu ml (ds ++ [n]).dropLast = (.err .other none, mu) := by
+    rw [List.dropLast_concat]; exact pEnsure_file hdne hv hf
+  refine ⟨?_, ?_, ?_⟩
+  · show Overlay.createDir _ _ w = _
+    rw [run_ocreateDir h _ hne hcs]
+    unfold pCreateDir
+    rw [hE]
+    simp only [andThen, h.hu.same]
+  · show Overlay.createFile _ _ w = _
+    rw [run_ocreateFile h _ hne hcs]
+    unfold pCreateFile
+    rw [hE]
+    simp only [andThen, Res.map, h.hu.same]
+  · intro hup
+    have key : ∀ cs : List Str, cs ≠ [] → (∀ c ∈ cs, GoodComp c) →
+        pEnsure mu ml cs.dropLast = (.err .other none, mu) → mu.find? (renderC cs) = none →
+        Overlay.appendFile (layers2 u l idu idl) (renderC cs) w = (.err .other none, w) := by
+      intro cs hne hcs hE hup
+      unfold Overlay.appendFile copyUp
+      simp [bind, M.bind, M.ret, writePath_layers2 cs hne hcs, run_vexists h.hu,
+        contains_of_none hup, run_ensureHasParent h cs hne hcs, hE, h.hu.same]
+    exact key _ hne hcs hE hup
+
+/-- the same with a well-formed upper map instead of "nothing at `p` in the upper map" -/
+theorem ensure_parent_file_refused_wf (ds : List Str) (n : Str) (hdne : ds ≠ [])
+    (hds : ∀ c ∈ ds, GoodComp c) (hn : GoodComp n) (e : Entry)
+    (hv : view mu ml (renderC ds) = some e) (hf : e.ftype = .file) (hwf : WF mu) :
+    (Overlay.fs (layers2 u l idu idl)).createDir (renderC (ds ++ [n])) w
+        = (.err .other none, w) ∧
+    (Overlay.fs (layers2 u l idu idl)).createFile (renderC (ds ++ [n])) w
+        = (.err .other none, w) ∧
+    (Overlay.fs (layers2 u l idu idl)).appendFile (renderC (ds ++ [n])) w
+        = (.err .other none, w) := by
+  obtain ⟨h1, h2, h3⟩ := ensure_parent_file_refused (idu := idu) (idl := idl) h ds n hdne hds hn e hv hf
+  exact ⟨h1, h2, h3 (upper_child_absent_of_view_file hwf hds hn hv hf)⟩
+
 end setting
 
 /-! ### F. non-vacuity: a concrete two-leaf world
@@ -449,6 +509,16 @@ example : viewOf (ofs.createDir "/d/x".toList w0).2 "/d/x" = some fileL := by de
 -- removing a directory that has lower-layer children: non-empty, nothing changes
 example : (ofs.removeDir "/d".toList w0).1 = .err .other none := by decide
 example : mapsOf (ofs.removeDir "/d".toList w0).2 = (exUpper, exLower) := by decide
+
+-- a file of the view (here: of the lower layer) gets no children, and no layer changes
+example : (ofs.createDir "/d/x/y".toList w0).1 = .err .other none := by decide
+example : mapsOf (ofs.createDir "/d/x/y".toList w0).2 = (exUpper, exLower) := by decide
+example : ((do let _ ← ofs.createFile "/d/x/y".toList; pure () : M Unit) w0).1
+    = .err .other none := by decide
+example : mapsOf (ofs.createFile "/d/x/y".toList w0).2 = (exUpper, exLower) := by decide
+example : ((do let _ ← ofs.appendFile "/d/x/y".toList; pure () : M Unit) w0).1
+    = .err .other none := by decide
+example : mapsOf (ofs.appendFile "/d/x/y".toList w0).2 = (exUpper, exLower) := by decide
 
 -- appending continues the lower layer's bytes
 def wAppended : World :=
